@@ -233,65 +233,66 @@ Section Spec.
   Fixpoint ref_type_known (t : sty) : bool :=
     match t with StNamed n => ahas n E | StList t' => ref_type_known t' | StNonNull t' => ref_type_known t' end.
 
-  (** 6.1.2 CoerceVariableValues *)
+  (** 6.1.2 CoerceVariableValues, per variable definition *)
+  Definition ref_var_step (raw : list (name * jval)) (acc : option (list (name * gval))) (def : vardef)
+    : option (list (name * gval)) :=
+    match acc with
+    | None => None
+    | Some m =>
+        if negb (ref_type_known (vd_type def)) then None
+        else match aget (vd_name def) raw, vd_default def with
+             | None, Some dflt =>
+                 match ref_coerce TLiteral (abs_lit [] dflt) (vd_type def) true with
+                 | Some c => Some (mset (vd_name def) c m)
+                 | None => None
+                 end
+             | None, None => if is_nonnull (vd_type def) then None else Some m
+             | Some j, _ =>
+                 match ref_coerce TJson (abs_json j) (vd_type def) true with
+                 | Some c => Some (mset (vd_name def) c m)
+                 | None => None
+                 end
+             end
+    end.
+
   Definition ref_variable_values (defs : list vardef) (raw : list (name * jval)) : option (list (name * gval)) :=
-    fold_left
-      (fun (acc : option (list (name * gval))) (def : vardef) =>
-         match acc with
-         | None => None
-         | Some m =>
-             if negb (ref_type_known (vd_type def)) then None
-             else match aget (vd_name def) raw, vd_default def with
-                  | None, Some dflt =>
-                      match ref_coerce TLiteral (abs_lit [] dflt) (vd_type def) true with
-                      | Some c => Some (mset (vd_name def) c m)
-                      | None => None
-                      end
-                  | None, None => if is_nonnull (vd_type def) then None else Some m
-                  | Some j, _ =>
-                      match ref_coerce TJson (abs_json j) (vd_type def) true with
-                      | Some c => Some (mset (vd_name def) c m)
-                      | None => None
-                      end
-                  end
-         end)
-      defs (Some []).
+    fold_left (ref_var_step raw) defs (Some []).
 
   Definition is_null_ival (v : ival) : bool :=
     match v with INull => true | IVarVal g => is_nil g | _ => false end.
 
-  (** 6.4.1 CoerceArgumentValues *)
+  (** 6.4.1 CoerceArgumentValues, per argument definition *)
+  Definition ref_arg_step (args : list (name * ival)) (acc : option (list (name * gval))) (ad : name * in_def)
+    : option (list (name * gval)) :=
+    match acc with
+    | None => None
+    | Some m =>
+        let (aname, d) := ad in
+        let value := aget aname args in
+        let has_value := match value with Some v => negb (is_absent v) | None => false end in
+        match has_value, in_default d with
+        | false, Some dv => Some (mset aname (ref_default dv) m)
+        | _, _ =>
+            if is_nonnull (in_type d)
+               && (negb has_value || match value with Some v => is_null_ival v | None => false end)
+            then None
+            else match value with
+                 | Some v =>
+                     if has_value then
+                       match ref_coerce TLiteral v (in_type d) true with
+                       | Some c => Some (mset aname c m)
+                       | None => None
+                       end
+                     else Some m
+                 | None => Some m
+                 end
+        end
+    end.
+
   Definition ref_argument_values (argdefs : list (name * in_def)) (args : list (name * ival))
     : option (list (name * gval)) :=
     if dup_names (map fst args) then None
-    else
-      fold_left
-        (fun (acc : option (list (name * gval))) (ad : name * in_def) =>
-           match acc with
-           | None => None
-           | Some m =>
-               let (aname, d) := ad in
-               let value := aget aname args in
-               let has_value := match value with Some v => negb (is_absent v) | None => false end in
-               match has_value, in_default d with
-               | false, Some dv => Some (mset aname (ref_default dv) m)
-               | _, _ =>
-                   if is_nonnull (in_type d)
-                      && (negb has_value || match value with Some v => is_null_ival v | None => false end)
-                   then None
-                   else match value with
-                        | Some v =>
-                            if has_value then
-                              match ref_coerce TLiteral v (in_type d) true with
-                              | Some c => Some (mset aname c m)
-                              | None => None
-                              end
-                            else Some m
-                        | None => Some m
-                        end
-               end
-           end)
-        argdefs (Some []).
+    else fold_left (ref_arg_step args) argdefs (Some []).
 
   (** the whole request: [None] = the client receives an error and nothing is called *)
   Definition ref_request (argdefs : list (name * in_def)) (defs : list vardef)
